@@ -112,6 +112,13 @@ def run(e: Engine, rep: Report):
                     o.reason)
     rep.errors += sub.errors
     rep.evaluations += sub.evaluations
+    from . import c10 as _c10
+    common.reuse(e, rep, _c10.f11, 'G15',
+                 '= C10-F11: one socket read per refill - buffered_recv '
+                 'never reads again because the last read came back full (a '
+                 'pipelined group that fills a read exactly would block the '
+                 'server on bytes the client only sends after its replies)',
+                 only={'F11'})
     rep.floor('G1', 6, 'buffer / socket access sites')
 
 
